@@ -67,6 +67,11 @@ TRunReturn == /\ IsEv("runReturn") /\ stack = <<>> /\ ~E.panic
 TLookupReturn == /\ IsEv("lookupReturn") /\ stack = <<>> /\ status \in {"done", "failed"}
                  /\ E.ok => LET v == IF L1[E.n] # NoV THEN L1[E.n] ELSE L2[E.n] IN v # NoV /\ E.res = Proj(v)
                  /\ UNCHANGED vars
+\* Factory.GetComponents returned: every object it handed out is the published one of its component, each component once
+TLookupAll == /\ IsEv("lookupAll") /\ stack = <<>> /\ status \in {"done", "failed"}
+              /\ E.ok => /\ \A i \in 1..Len(E.res) : E.res[i].n \in Node /\ E.res[i] = Proj(L1[E.res[i].n])
+                          /\ {E.res[j].n : j \in 1..Len(E.res)} = Node /\ Len(E.res) = N
+              /\ UNCHANGED vars
 TProcInit == IsEv("procInit") /\ ProcInit(E.n)
 TReset == /\ IsEv("scenario")
           /\ ResetTo(ScOf(E.sc))
@@ -74,7 +79,7 @@ TReset == /\ IsEv("scenario")
 TraceInit == l = 2 /\ Init
 TraceNext ==
   /\ \/ TGet \/ TCreateBegin \/ TAddFactory \/ TResolve \/ TBefore \/ TAps \/ TInit \/ TAfter
-     \/ TCheck \/ TCreateEnd \/ TRunReturn \/ TLookupReturn \/ TProcInit \/ TBinst \/ TRun \/ TReset
+     \/ TCheck \/ TCreateEnd \/ TRunReturn \/ TLookupReturn \/ TProcInit \/ TBinst \/ TRun \/ TLookupAll \/ TReset
   /\ (E.ev # "scenario" => StateMatchesP(E.st))
 TraceSpec == TraceInit /\ [][TraceNext]_<<vars, l>>
 
